@@ -139,20 +139,27 @@ theorem filter_pos_sum : ∀ (l : List Nat), sum (l.filter (fun c => decide (0 <
     · have : x = 0 := by omega
       subst this; simp [sum_cons, ih]
 
+/-- the stable argsort order is valid; so is every permutation of the chunk indices (any argsort) -/
+theorem modificationOrder_valid (cs : List Nat) (m : Nat) (hm : 0 < m) : ValidOrder (modificationOrder m cs) cs m :=
+  ⟨modificationOrder_lt m cs, by rw [modificationOrder_length]; exact Nat.div_le_of_le_mul (excess_le m hm cs)⟩
+
+theorem perm_validOrder (order cs : List Nat) (m : Nat) (hm : 0 < m) (hp : order.Perm (List.range cs.length)) :
+    ValidOrder order cs m :=
+  ⟨fun i hi => by simpa using (hp.mem_iff.1 hi),
+   by rw [hp.length_eq, List.length_range]; exact Nat.div_le_of_le_mul (excess_le m hm cs)⟩
+
 /-- the raw result of the loop, before the `or (0,)`: positive multiples of `m`, then the remainder -/
-theorem aligned_raw (cs : List Nat) (m : Nat) (hm : 0 < m) :
-    ∃ body, alignedCoarsenChunks cs m =
+theorem aligned_raw (order : List Nat) (cs : List Nat) (m : Nat) (hm : 0 < m) (hv : ValidOrder order cs m) :
+    ∃ body, alignedCoarsenChunksWith order cs m =
         some (if (body ++ (if sum cs % m = 0 then [] else [sum cs % m])).isEmpty then [0]
               else body ++ (if sum cs % m = 0 then [] else [sum cs % m]))
       ∧ (∀ c ∈ body, 0 < c ∧ m ∣ c) ∧ sum body + sum cs % m = sum cs := by
-  have hk : excessOf m cs / m ≤ (modificationOrder m cs).length := by
-    rw [modificationOrder_length]
-    exact Nat.div_le_of_le_mul (excess_le m hm cs)
+  have hk : excessOf m cs / m ≤ order.length := hv.2
   have hfl : (floorChunks m cs).length = cs.length := by simp [floorChunks]
-  obtain ⟨new, h1, _, h3, h4⟩ := bumpAll_spec m ((modificationOrder m cs).take (excessOf m cs / m)) (floorChunks m cs)
-    (fun i hi => by rw [hfl]; exact modificationOrder_lt m cs i (List.mem_of_mem_take hi)) (floorChunks_dvd m cs)
+  obtain ⟨new, h1, _, h3, h4⟩ := bumpAll_spec m (order.take (excessOf m cs / m)) (floorChunks m cs)
+    (fun i hi => by rw [hfl]; exact hv.1 i (List.mem_of_mem_take hi)) (floorChunks_dvd m cs)
   refine ⟨new.filter (fun c => decide (0 < c)), ?_, ?_, ?_⟩
-  · unfold alignedCoarsenChunks
+  · unfold alignedCoarsenChunksWith
     rw [if_neg (by omega), if_neg (by omega)]
     simp only [h1, excess_mod]
     have e : (new ++ (if sum cs % m = 0 then [] else [sum cs % m])).filter (fun c => decide (0 < c))
@@ -176,11 +183,11 @@ theorem aligned_raw (cs : List Nat) (m : Nat) (hm : 0 < m) :
 /-- **the post-condition of `aligned_coarsen_chunks`** for every chunk tuple (zeros allowed) and every positive
     multiple: it never raises; the result is a body of multiples of `m` followed by exactly the remainder
     `total % m` (when non-zero); same total; the body is positive, except that a zero-length axis gives `(0,)`. -/
-theorem aligned_spec (cs : List Nat) (m : Nat) (hm : 0 < m) :
-    ∃ body, alignedCoarsenChunks cs m = some (body ++ (if sum cs % m = 0 then [] else [sum cs % m]))
+theorem aligned_spec (order : List Nat) (cs : List Nat) (m : Nat) (hm : 0 < m) (hv : ValidOrder order cs m) :
+    ∃ body, alignedCoarsenChunksWith order cs m = some (body ++ (if sum cs % m = 0 then [] else [sum cs % m]))
       ∧ (∀ c ∈ body, m ∣ c) ∧ sum body + sum cs % m = sum cs
       ∧ ((sum cs ≠ 0 ∧ ∀ c ∈ body, 0 < c) ∨ (sum cs = 0 ∧ body = [0])) := by
-  obtain ⟨body, h1, h2, h3⟩ := aligned_raw cs m hm
+  obtain ⟨body, h1, h2, h3⟩ := aligned_raw order cs m hm hv
   by_cases h0 : sum cs = 0
   · -- nothing but zero-length chunks
     have hb : body = [] := by
@@ -208,8 +215,8 @@ theorem aligned_spec (cs : List Nat) (m : Nat) (hm : 0 < m) :
     rw [hne]; rfl
 
 /-- chunks that are already positive multiples of `m` are returned unchanged (so `da.coarsen` does not rechunk) -/
-theorem aligned_fixpoint (cs : List Nat) (m : Nat) (hm : 0 < m) (hne : cs ≠ []) (h : ∀ c ∈ cs, 0 < c ∧ m ∣ c) :
-    alignedCoarsenChunks cs m = some cs := by
+theorem aligned_fixpoint (order : List Nat) (cs : List Nat) (m : Nat) (hm : 0 < m) (hne : cs ≠ []) (h : ∀ c ∈ cs, 0 < c ∧ m ∣ c) :
+    alignedCoarsenChunksWith order cs m = some cs := by
   have hov : ∀ (l : List Nat), (∀ c ∈ l, 0 < c ∧ m ∣ c) → excessOf m l = 0 ∧ floorChunks m l = l := by
     intro l
     induction l with
@@ -225,7 +232,7 @@ theorem aligned_fixpoint (cs : List Nat) (m : Nat) (hm : 0 < m) (hne : cs ≠ []
     rw [List.filter_eq_self]
     intro c hc
     simpa using (h c hc).1
-  unfold alignedCoarsenChunks
+  unfold alignedCoarsenChunksWith
   rw [if_neg (by omega)]
   simp only [e1, e2, Nat.zero_div, Nat.zero_mod, List.take_zero, bumpAll, Nat.not_lt_zero, if_false, if_true, List.append_nil, hf]
   cases cs with
